@@ -69,8 +69,11 @@ def bucketRows (bs : List GoTime) (b : GoTime) : List Nat :=
 
 /-- distinct buckets in ascending time order (`order` stands for the order in which Go's map iteration
 yields the distinct buckets; the sort makes the result independent of it) -/
-def sortedBuckets (order : List GoTime) : List GoTime :=
-  order.mergeSort (fun a b => decide (a.unix ≤ b.unix))
+def insertAsc (t : GoTime) : List GoTime → List GoTime
+  | [] => [t]
+  | x :: xs => if t.unix ≤ x.unix then t :: x :: xs else x :: insertAsc t xs
+
+def sortedBuckets (order : List GoTime) : List GoTime := order.foldr insertAsc []
 
 def resampleWith (perm : List GoTime → List GoTime) (ω : Oracle) (f : Frame) (k : Str) (freq : Str) (agg : AggFn) :
     Outcome Frame :=
